@@ -195,6 +195,7 @@ type world struct {
 	pInfStall, pFeedStall   int
 	pFeedReorder, pFeedDup  int
 	pFeedCoalesce           int
+	pFeedResync             int
 	pDelLost                int
 	allowPodCreateLag       bool
 }
